@@ -452,6 +452,8 @@ class DznJsonAst:
     def process(self) -> FileContents:
         """"Start processing the preloaded Dezyne JSON AST and return the FileContents."""
         root = parse_root(self.ast)
+        self._ns_trail = NamespaceTree()
+        self._file_contents = FileContents()
         for element in root.elements:
             self.parse_element(element, self._ns_trail)
         return self.file_contents
